@@ -211,6 +211,7 @@ Record pslot := mkPS {
   ps_sess : N; ps_slot : N; ps_seq : N; ps_cache : bool; ps_reply : creply }.
 Record pstate := mkP {
   p_threads : list pthread; p_slots_known : list pslot;
+  p_cs_known : list (N * N * opres);   (* client, sequence, last CREATE_SESSION result *)
   p_shared : bool }.     (* [sharing] was observed (known finding: its bookkeeping drifts) *)
 
 Definition empty_dump := mkDump 0 [] [] [] [].
@@ -517,6 +518,37 @@ Definition p_retained (lease : N) (pst : pstate) (pre s : hstep) : string :=
             "C18:open-state-lost"
     end) (d_clients (hs_dump pre)).
 
+(* ---- C19: CREATE_SESSION is sequenced per client -------------------------- *)
+Definition p_create_session (lease : N) (pst : pstate) (pre s : hstep) (tid cid sq : N) : string :=
+  if expirable lease (d_now (hs_dump s)) (hs_dump pre) then "" else
+  match find_dclient cid (hs_dump pre), reply_of tid s with
+  | Some c, Some r =>
+    let same_sessions := list_eqb d_session_eqb (d_sessions (hs_dump pre)) (d_sessions (hs_dump s)) in
+    if sq =? dc_seq c then
+      (* retransmission: the cached response, no new session *)
+      check same_sessions "C19:create-session-replay-reexecuted"
+      ;; match find (fun x => (fst (fst x) =? cid) && (snd (fst x) =? sq)) (p_cs_known pst) with
+         | Some x => check (list_eqb opres_eqb (cr_res r) [snd x]) "C19:create-session-replay-differs"
+         | None => ""
+         end
+    else if sq =? (dc_seq c + 1) mod u32 then
+      (* a new CREATE_SESSION that succeeds is recorded: the sequence moves on and the session exists *)
+      match cr_res r with
+      | [RCreateSession sess sq'] =>
+        check (sq' =? sq) "C19:create-session-reply-sequence"
+        ;; check (match find_dclient cid (hs_dump s) with Some c' => dc_seq c' =? sq | None => false end)
+                 "C19:create-session-sequence-not-recorded"
+        ;; check (match find_dsession sess (hs_dump s) with Some ss => dss_client ss =? cid | None => false end)
+                 "C19:create-session-without-session"
+      | _ => ""
+      end
+    else
+      check (creply_eqb r (mkReply ERR_SEQ_MISORDERED [RStatus OP_CREATE_SESSION ERR_SEQ_MISORDERED]))
+            "C19:create-session-misordered-accepted"
+      ;; check same_sessions "C19:create-session-misordered-side-effect"
+  | _, _ => ""
+  end.
+
 (* ---- one step ------------------------------------------------------------ *)
 Definition p_step (lease : N) (pst : pstate) (pre s : hstep) : string :=
   check (match hs_panics s with
@@ -538,6 +570,7 @@ Definition p_step (lease : N) (pst : pstate) (pre s : hstep) : string :=
              end
            | None => ""
            end)
+     | HSolo tid (SCreateSession cid sq) => p_create_session lease pst pre s tid cid sq
      | _ => ""
      end
   ;; p_delivery pst s
@@ -561,12 +594,12 @@ Definition ledger_step (pst : pstate) (pre s : hstep) : pstate :=
                                (p_threads pst) in
               mkP (p_threads pst ++ [mkPT tid sess sl sq cache ops (dss_client ss)
                                           (match orig with Some o => Some (pt_tid o) | None => Some 0 end)])
-                  (p_slots_known pst) (p_shared pst)
+                  (p_slots_known pst) (p_cs_known pst) (p_shared pst)
             else
               (* the slot moves on: what is cached for it is discarded *)
               mkP (p_threads pst ++ [mkPT tid sess sl sq cache ops (dss_client ss) None])
                   (filter (fun p => negb ((ps_sess p =? sess) && (ps_slot p =? sl))) (p_slots_known pst))
-                  (p_shared pst)
+                  (p_cs_known pst) (p_shared pst)
           else pst
         | None => pst
         end
@@ -587,7 +620,21 @@ Definition ledger_step (pst : pstate) (pre s : hstep) : pstate :=
                    else acc
                  | _, _ => acc
                  end) (p_threads pst1) (p_slots_known pst1) in
-  mkP (filter (fun t => negb (finished t)) (p_threads pst1)) known
+  let cs :=
+    match hs_op s with
+    | HSolo tid (SCreateSession cid sq) =>
+      match reply_of tid s with
+      | Some r =>
+        match cr_res r with
+        | [RCreateSession sess sq'] =>
+          (cid, sq', RCreateSession sess sq') :: filter (fun x => negb (fst (fst x) =? cid)) (p_cs_known pst1)
+        | _ => p_cs_known pst1
+        end
+      | None => p_cs_known pst1
+      end
+    | _ => p_cs_known pst1
+    end in
+  mkP (filter (fun t => negb (finished t)) (p_threads pst1)) known cs
       (p_shared pst || sharing (hs_dump pre) || sharing (hs_dump s)).
 
 Definition targets_of (pst : pstate) : list (N * N) :=
@@ -606,4 +653,4 @@ Fixpoint p_from (lease : N) (i : nat) (pst : pstate) (pre : hstep) (steps : list
   end.
 
 Definition p_case (cfg : config) (steps : list hstep) : option (nat * string) :=
-  p_from (cf_lease cfg) 0 (mkP [] [] false) empty_obs steps.
+  p_from (cf_lease cfg) 0 (mkP [] [] [] false) empty_obs steps.
